@@ -427,6 +427,14 @@ Definition batch_put_refused (d : db) (b : batch) (k v : bytes) : option (db * l
     Some (if (0 <? sz) && (fs <? sz + b_cached b + maxFinRecord) then db_rotate d else (d, []))
   else None.
 
+(* Batch.Put whose overflow flush succeeds while the Sync of the rotation that follows is refused: the staged records are
+   in the file and in the index (batch_flush), the active file stays, the new record is not staged.  None: no flush due. *)
+Definition batch_put_sync_refused (d : db) (b : batch) (k v : bytes) : option (db * batch * list event) :=
+  match batch_put_refused d b k v with
+  | None => None
+  | Some _ => Some (batch_flush d b)
+  end.
+
 (* Batch.Get *)
 Definition batch_get (d : db) (b : batch) (k : bytes) : db * (bytes + eerr) * list event :=
   if len k =? 0 then (d, inr EKeyIsEmpty, []) else
@@ -485,6 +493,17 @@ Definition batch_commit (d : db) (b : batch) : db * batch * option eerr * list e
 (* Commit while the operating system refuses the write of the staged records (no rotation before it): FlushStaged
    reports the error before anything reached the file or the index; the batch is finished and holds nothing *)
 Definition batch_refuse (b : batch) : batch := mkBatch [] 0 true (b_sync b) (b_id b).
+
+(* Commit of a batch pieces of which were flushed and that holds nothing now (the Put that followed the flush failed):
+   the batch-finished record is still owed - without it the flushed pieces would vanish at the next restart *)
+Definition batch_commit_flushed (d : db) (b : batch) : db * batch * option eerr * list event :=
+  if b_committed b then (d, b, Some EBatchCommitted, []) else
+  let bc := mkBatch (b_staged b) (b_cached b) true (b_sync b) (b_id b) in
+  let '(d1, b1, ev1) := batch_flush d bc in
+  let seal := mkRec rt_BatchFinished (dec_digits (b_id b)) [] (b_id b) in
+  let '(a, _, ev2) := lf_append (io_of d1) (FData (d_active_id d1)) (d_active_id d1) (d_active d1) seal in
+  let '(a', ev3) := if b_sync b then h_sync (FData (d_active_id d1)) a else (a, []) in
+  (set_active d1 (d_active_id d1) a', b1, None, ev1 ++ ev2 ++ ev3).
 
 (* ---- recovery: loadIndexFromDataFiles -------------------------------------------- *)
 (* updateIndex *)
